@@ -241,8 +241,8 @@ def run_chunk(binary, run, seed, lo, hi, outbase, res, prop, env_extra=None):
             if run.get("tsan"):
                 d = os.path.dirname(out)
                 res.tsan_logs += [os.path.join(d, f) for f in os.listdir(d) if f.startswith(os.path.basename(out) + ".tsan")]
-        if done and rc == 0 and not timed_out:
-            return
+        if done and not timed_out and (rc == 0 or (run.get("tsan") and rc == 66)):
+            return  # 66 = ThreadSanitizer's exit code when it reported something; the log is parsed later
         failed_case = _prog_case(out, cur)
         if timed_out:
             # re-run the single case once; a reproducible hang is a verdict, a one-off is not
